@@ -8,5 +8,7 @@ for p in $(python3 -c "import json;print(' '.join(c['property_id'] for c in json
   echo "$out" | grep -v '^KNOWN' | tail -1 | cut -c1-170
   if [ $rc -ne 0 ] || echo "$out" | grep -q '^VIOLATION'; then bad=1; echo "$out" | grep '^VIOLATION' | head -3 | cut -c1-220; fi
 done
+# the generator itself: deliberately wrong contracts over loops, maps and frames must be refuted (selftest/engine)
+selftest/engine/run.sh | tail -1; [ ${PIPESTATUS[0]} -eq 0 ] || bad=1
 [ $bad = 0 ] && echo "regress: all green" || echo "regress: ALARMS ON THE UNCHANGED TREE"
 exit $bad
